@@ -62,7 +62,7 @@ C12Rows(r) ==
                 ELSE IF "ImportArgGapDropped" \in Devs /\ Range(lost) \subseteq Range(r.dropimp)
                      THEN <<V(r.id, "deviation", "ImportArgGapDropped", "comment in front of a named import argument deleted: " \o lost[1])>>
                 ELSE IF "OpenBraceGapDropped" \in Devs /\ Range(lost) \subseteq Range(r.dropgap) THEN <<V(r.id, "deviation", "OpenBraceGapDropped", "comment in front of a block's opening brace deleted: " \o lost[1])>>
-                ELSE <<V(r.id, "violation", "", "comment lost or reordered: " \o (CHOOSE c \in Range(lost) \ Range(r.dropgap) : TRUE))>>
+                ELSE <<V(r.id, "violation", "", "comment lost or reordered: " \o lost[1])>>
        (* tier 2 *)
        pred == Format(r.file, r.opts)
        rowsD == IF r.hasModel /\ pred # r.fmt THEN <<V(r.id, "drift", "Format", "model predicts a different text: " \o pred)>> ELSE <<>>
